@@ -45,6 +45,8 @@ def classified : List (String × String × String × String) := [
   ("packages/beff-core/src/subtyping/semtype.rs", "let data1 = self.t1.subtype_data.get(self.i1).expect(\"should exist\");", "invariant", "index produced by the same context (definitions are append-only)"),
   ("packages/beff-core/src/subtyping/semtype.rs", "let data2 = self.t2.subtype_data.get(self.i2).expect(\"should exist\");", "invariant", "index produced by the same context (definitions are append-only)"),
   ("packages/beff-core/src/subtyping/semtype.rs", "loop {", "loop", "bounded: consumes a finite list / strictly decreasing index / follows finished definitions only (fix D1)"),
+  ("packages/beff-core/src/subtyping/bdd.rs", "while let Some(n) = cur {", "loop", "bounded: walks the finite linked list of negated atoms once (fix D5/D20)"),
+  ("packages/beff-core/src/subtyping/bdd.rs", "while s.len() < len {", "loop", "bounded: pads a vector up to a fixed length (fix D5/D20)"),
   ("packages/beff-core/src/subtyping/semtype.rs", "unreachable!(\"should have found a tag\")", "invariant", "match arm excluded by the tag / kind dispatch of the caller"),
   ("packages/beff-core/src/subtyping/subtype.rs", "_ => unreachable!(\"intersect should not compare types of different tags\"),", "invariant", "match arm excluded by the tag / kind dispatch of the caller"),
   ("packages/beff-core/src/subtyping/subtype.rs", "_ => unreachable!(\"union should not compare types of different tags\"),", "invariant", "match arm excluded by the tag / kind dispatch of the caller"),
